@@ -1037,8 +1037,10 @@ void SPxMainSM<R>::DoubletonEquationPS::execute(VectorBase<R>& x, VectorBase<R>&
          cStatus[m_j] = SPxSolverBase<R>::FIXED;
       else
       {
+         // with a zero reduced cost the bound x_j sits at decides; x_j was recomputed from the equation, so it equals
+         // that bound only up to rounding: take the nearer bound (an infinite bound is never the nearer one)
          if(GT(r[m_j], (R) 0, this->epsilon()) || (isZero(r[m_j], this->epsilon())
-               && EQ(x[m_j], m_Lo_j, this->epsilon())))
+               && (m_Up_j >= R(infinity) || (m_Lo_j > R(-infinity) && x[m_j] - m_Lo_j <= m_Up_j - x[m_j]))))
             cStatus[m_j] = SPxSolverBase<R>::ON_LOWER;
          else
             cStatus[m_j] = SPxSolverBase<R>::ON_UPPER;
